@@ -29,7 +29,7 @@ import lib
 PROP = 'C05'
 THEOREMS = [
     'C05_tracks', 'C05_layout_spec', 'C05_tracks_layout', 'C05_no_backend_error', 'C05_no_orphans', 'C05_no_missing', 'C05_safe_run_is_run',
-    'C05_history_tracks', 'C05_empty_ok', 'C05_rename_free', 'C05_ptrref_agrees',
+    'C05_history_tracks', 'C05_empty_ok', 'C05_rename_free', 'C05_ptrref_agrees', 'C05_named_column_dunder',
 ]
 REFUTED = ['C05_full_refuted']
 IMPL = os.path.join(lib.VERIF, 'harness', 'impl', 'c05_impl.py')
@@ -42,11 +42,52 @@ def is_link(p):
     return p >= NPROP
 
 
+# the identifiers behind the numeric names of the model: plain, one leading underscore, needs quoting
+# (upper case + dash), two leading underscores (the column is then named after the pointer, not its id:
+# Model.dunder = index % 4 == 3)
+PNAMES = ['p0', '_p1', 'P-2', '__p3', 'p4', '_p5', 'L-6', '__p7']
+LPNAMES = ['q0', '_q1', 'Q-2']
+_PLAIN = re.compile(r'[A-Za-z_][A-Za-z0-9_]*$')
+
+
+def _q(name):
+    return name if _PLAIN.match(name) else '`' + name + '`'
+
+
+def PN(i):
+    return _q(PNAMES[i]) if 0 <= i < len(PNAMES) else f'p{i}'
+
+
+def QN(i):
+    return _q(LPNAMES[i]) if 0 <= i < len(LPNAMES) else f'q{i}'
+
+
+_CANON = {n: f'p{i}' for i, n in enumerate(PNAMES)}
+_CANON.update({n: f'q{i}' for i, n in enumerate(LPNAMES)})
+_CANON_RE = re.compile(r'(?<![A-Za-z0-9_-])(' + '|'.join(
+    re.escape(n) for n in sorted(_CANON, key=len, reverse=True) if _CANON[n] != n) + r')(?![A-Za-z0-9_-])')
+
+
+def canon_names(x):
+    """real identifiers -> the model's p<i> / q<i>, in strings and nested lists"""
+    if isinstance(x, str):
+        return _CANON_RE.sub(lambda m: _CANON[m.group(1)], x)
+    if isinstance(x, list):
+        return [canon_names(y) for y in x]
+    if isinstance(x, dict):
+        return {canon_names(k): canon_names(v) for k, v in x.items()}
+    return x
+
+
+def dunder(p):
+    return p % 4 == 3
+
+
 # ---------------------------------------------------------------- events
 # ('CT', n, abstract, [bases]) ('DT', n) ('RT', n, m) ('SA', n, b) ('AB', n, b) ('DB', n, b)
 # ('CP', n, p, link, target, multi, req, comp) ('DP', n, p) ('RP', n, p, p2) ('SM', n, p, b)
 # ('SR', n, p, b) ('SC', n, p, b, em, tg) ('CL', n, p, q, comp) ('DL', n, p, q) ('RL', n, p, q, q2)
-# ('SL', n, p, q, b)     and ('X', text, tag): opaque DDL outside the model's vocabulary
+# ('SL', n, p, q, b) ('ST', n, p, tg)     and ('X', text, tag): opaque DDL outside the model's vocabulary
 
 def enc_event(e):
     k = e[0]
@@ -77,6 +118,8 @@ def enc_event(e):
         return f'RL {e[1]} {e[2]} {e[3]} {e[4]}'
     if k == 'SL':
         return f'SL {e[1]} {e[2]} {e[3]} {b(e[4])}'
+    if k == 'ST':
+        return f'ST {e[1]} {e[2]} {e[3]}'
     raise ValueError(e)
 
 
@@ -111,6 +154,8 @@ def dec_event(s):
         return ('RL', i(1), i(2), i(3), i(4))
     if k == 'SL':
         return ('SL', i(1), i(2), i(3), bb(4))
+    if k == 'ST':
+        return ('ST', i(1), i(2), i(3))
     raise ValueError(s)
 
 
@@ -150,6 +195,8 @@ def coq_event(e):
         return f'URenameLP {n(e[1])} {n(e[2])} {n(e[3])} {n(e[4])}'
     if k == 'SL':
         return f'USetLPComp {n(e[1])} {n(e[2])} {n(e[3])} {b(e[4])}'
+    if k == 'ST':
+        return f'USetType {n(e[1])} {n(e[2])} {n(e[3])}'
     raise ValueError(e)
 
 
@@ -183,39 +230,45 @@ def ddl(e):
                 ex = f'T{tg}' if multi else f'(select T{tg} limit 1)'
             else:
                 ex = "{'x', 'y'}" if multi else "'x'"
-            return f'alter type T{n} {{ create {quals}{"link" if link else "property"} p{p} := {ex}; }};'
+            return f'alter type T{n} {{ create {quals}{"link" if link else "property"} {PN(p)} := {ex}; }};'
         tgt = f'T{tg}' if link else 'str'
-        return f'alter type T{n} {{ create {quals}{"link" if link else "property"} p{p}: {tgt}; }};'
+        return f'alter type T{n} {{ create {quals}{"link" if link else "property"} {PN(p)}: {tgt}; }};'
     if k == 'DP':
-        return f'alter type T{e[1]} {{ drop {kw(e[2])} p{e[2]}; }};'
+        return f'alter type T{e[1]} {{ drop {kw(e[2])} {PN(e[2])}; }};'
     if k == 'RP':
-        return f'alter type T{e[1]} {{ alter {kw(e[2])} p{e[2]} rename to p{e[3]}; }};'
+        return f'alter type T{e[1]} {{ alter {kw(e[2])} {PN(e[2])} rename to {PN(e[3])}; }};'
     if k == 'SM':
         if e[3]:
-            return f'alter type T{e[1]} {{ alter {kw(e[2])} p{e[2]} set multi; }};'
-        return (f'alter type T{e[1]} {{ alter {kw(e[2])} p{e[2]} '
-                f'set single using (select .p{e[2]} limit 1); }};')
+            return f'alter type T{e[1]} {{ alter {kw(e[2])} {PN(e[2])} set multi; }};'
+        return (f'alter type T{e[1]} {{ alter {kw(e[2])} {PN(e[2])} '
+                f'set single using (select .{PN(e[2])} limit 1); }};')
     if k == 'SR':
-        return f'alter type T{e[1]} {{ alter {kw(e[2])} p{e[2]} set {"required" if e[3] else "optional"}; }};'
+        return f'alter type T{e[1]} {{ alter {kw(e[2])} {PN(e[2])} set {"required" if e[3] else "optional"}; }};'
     if k == 'SC':
         _, n, p, b, em, tg = e
         if not b:
-            return f'alter type T{n} {{ alter {kw(p)} p{p} reset expression; }};'
+            return f'alter type T{n} {{ alter {kw(p)} {PN(p)} reset expression; }};'
         if is_link(p):
             ex = f'T{tg}' if em else f'(select T{tg} limit 1)'
         else:
             ex = "{'x', 'y'}" if em else "'x'"
-        return f'alter type T{n} {{ alter {kw(p)} p{p} using ({ex}); }};'
+        return f'alter type T{n} {{ alter {kw(p)} {PN(p)} using ({ex}); }};'
     if k == 'CL':
-        body = f"q{e[3]} := 'x'" if e[4] else f'q{e[3]}: str'
-        return f'alter type T{e[1]} {{ alter link p{e[2]} {{ create property {body}; }} }};'
+        body = f"{QN(e[3])} := 'x'" if e[4] else f'{QN(e[3])}: str'
+        return f'alter type T{e[1]} {{ alter link {PN(e[2])} {{ create property {body}; }} }};'
     if k == 'DL':
-        return f'alter type T{e[1]} {{ alter link p{e[2]} {{ drop property q{e[3]}; }} }};'
+        return f'alter type T{e[1]} {{ alter link {PN(e[2])} {{ drop property {QN(e[3])}; }} }};'
     if k == 'RL':
-        return f'alter type T{e[1]} {{ alter link p{e[2]} {{ alter property q{e[3]} rename to q{e[4]}; }} }};'
+        return f'alter type T{e[1]} {{ alter link {PN(e[2])} {{ alter property {QN(e[3])} rename to {QN(e[4])}; }} }};'
     if k == 'SL':
         act = "using ('x')" if e[4] else 'reset expression'
-        return f'alter type T{e[1]} {{ alter link p{e[2]} {{ alter property q{e[3]} {act}; }} }};'
+        return f'alter type T{e[1]} {{ alter link {PN(e[2])} {{ alter property {QN(e[3])} {act}; }} }};'
+    if k == 'ST':
+        _, n, p, tg = e
+        if is_link(p):
+            ex = f'(select T{tg} limit 1)' if (n + p + tg) % 2 == 0 else f'.{PN(p)}[is T{tg}]'
+            return f'alter type T{n} {{ alter link {PN(p)} set type T{tg} using ({ex}); }};'
+        return f'alter type T{n} {{ alter property {PN(p)} set type str using (<str>.{PN(p)}); }};'
     raise ValueError(e)
 
 
@@ -231,6 +284,9 @@ class Guide:
         self.lost = set()        # (owner type n, p): link that went computed->stored holding stored lprops
         self.cardusing = set()   # (owner type n, p): stored single property given a multi USING expression
         self.orphan_types = set()  # types whose table keeps a column of such a property after it was dropped
+        self.f4 = {}             # (owner type n, current name p) -> names the pointer had since a rename
+        #                          from / to a `__` name (its column is named after the pointer: C05-F4)
+        self.f4_dead = set()     # (owner type n, frozenset(names)) after the pointer itself was dropped
 
     def anc(self, n, seen=None):
         seen = seen if seen is not None else []
@@ -282,6 +338,8 @@ class Guide:
                 self.lost = {x for x in self.lost if x[0] != e[1]}
                 self.cardusing = {x for x in self.cardusing if x[0] != e[1]}
                 self.orphan_types.discard(e[1])
+                self.f4 = {k2: v for k2, v in self.f4.items() if k2[0] != e[1]}
+                self.f4_dead = {x for x in self.f4_dead if x[0] != e[1]}
             elif k == 'RT':
                 T[e[2]] = T.pop(e[1])
                 for t in T.values():
@@ -292,6 +350,8 @@ class Guide:
                 self.lost = {(e[2] if a == e[1] else a, p) for a, p in self.lost}
                 self.cardusing = {(e[2] if a == e[1] else a, p) for a, p in self.cardusing}
                 self.orphan_types = {(e[2] if a == e[1] else a) for a in self.orphan_types}
+                self.f4 = {((e[2] if a == e[1] else a), pp): v for (a, pp), v in self.f4.items()}
+                self.f4_dead = {((e[2] if a == e[1] else a), v) for a, v in self.f4_dead}
             elif k == 'SA':
                 T[e[1]]['abs'] = e[2]
             elif k == 'AB':
@@ -307,11 +367,20 @@ class Guide:
                 self.lost.discard((e[1], e[2]))
                 if (e[1], e[2]) in self.cardusing:
                     self.orphan_types.add(e[1])     # the column outlives the property, nameless
+                if (e[1], e[2]) in self.f4:
+                    self.f4_dead.add((e[1], frozenset(self.f4.pop((e[1], e[2])))))
                 self.cardusing.discard((e[1], e[2]))
             elif k == 'RP':
                 T[e[1]]['own'][e[3]] = T[e[1]]['own'].pop(e[2])
                 self.rename_key(self.lost, (e[1], e[2]), (e[1], e[3]))
                 self.rename_key(self.cardusing, (e[1], e[2]), (e[1], e[3]))
+                names = self.f4.pop((e[1], e[2]), None)
+                if names is not None or ((dunder(e[2]) or dunder(e[3])) and e[2] != e[3]):
+                    self.f4[(e[1], e[3])] = (names or set()) | {e[2], e[3]}
+            elif k == 'ST':
+                o = self.owner(e[1], e[2])
+                if T[o]['own'][e[2]]['link']:
+                    T[o]['own'][e[2]]['tg'] = e[3]
             elif k == 'SM':
                 o = self.owner(e[1], e[2])
                 T[o]['own'][e[2]]['multi'] = e[3]
@@ -367,6 +436,15 @@ class Guide:
                         out.add((d, p))
         return out
 
+    def f4_cols(self):
+        """{table: names} of the columns that may be missing / orphaned / nameless because of C05-F4"""
+        out = {}
+        for (o, _p), names in list(self.f4.items()) + [((o, None), set(n)) for o, n in self.f4_dead]:
+            if o in self.types:
+                for d in self.cone(o):
+                    out.setdefault(f'T:T{d}', set()).update(f'p{x}' for x in names)
+        return out
+
     def orphan_cols(self):
         """(table, column) left behind by C05-F2"""
         out = set()
@@ -398,7 +476,7 @@ def gen_event(rnd, g: Guide, prof):
         has_ptr = [n for n in names if T[n]['own']]
         has_link = [n for n in names if any(v['link'] for v in T[n]['own'].values())]
         has_lp = [n for n in names if any(v['link'] and v['lps'] for v in T[n]['own'].values())]
-        if k in ('DP', 'RP', 'SM', 'SR', 'SC') and not has_ptr:
+        if k in ('DP', 'RP', 'SM', 'SR', 'SC', 'ST') and not has_ptr:
             k = 'CP'
         if k == 'CL' and not has_link:
             k = 'CP'
@@ -454,7 +532,7 @@ def gen_event(rnd, g: Guide, prof):
     # pointer-level events
     n = anyT()
     if not wild:
-        if k in ('DP', 'RP', 'SM', 'SR', 'SC') and has_ptr:
+        if k in ('DP', 'RP', 'SM', 'SR', 'SC', 'ST') and has_ptr:
             n = rnd.choice(has_ptr)
         elif k == 'CL' and has_link:
             n = rnd.choice(has_link)
@@ -516,6 +594,12 @@ def gen_event(rnd, g: Guide, prof):
         return ('SM', n, p, (not v['multi']) if rnd.random() < 0.95 else v['multi'])
     if k == 'SR':
         return ('SR', n, p, (not v['req']) if rnd.random() < 0.9 else v['req'])
+    if k == 'ST':
+        if not wild:
+            stored = [x for x in ownp if not vis.get(x, {}).get('comp')]
+            if stored:
+                p = rnd.choice(stored)
+        return ('ST', n, p, anyT())
     if k == 'SC':
         b = (not v['comp']) if rnd.random() < 0.9 else v['comp']
         em = v['multi']
@@ -530,19 +614,19 @@ PROFILES = {
     # the model's fragment, mostly applicable events
     'model': {'kinds': [('CT', 10), ('DT', 4), ('RT', 3), ('SA', 2), ('AB', 4), ('DB', 4), ('CP', 22), ('DP', 6),
                         ('RP', 4), ('SM', 12), ('SR', 4), ('SC', 12), ('CL', 10), ('DL', 5), ('RL', 2),
-                        ('SL', 6)],
+                        ('SL', 6), ('ST', 7)],
               'wild': 0.04, 'inherit': 0.55, 'comp': 0.2},
     # link-property heavy
     'lprops': {'kinds': [('CT', 6), ('DT', 2), ('AB', 2), ('DB', 2), ('CP', 16), ('DP', 5), ('SM', 14), ('SC', 14),
-                         ('CL', 18), ('DL', 9), ('RL', 2), ('SL', 10), ('RP', 2), ('RT', 1)],
+                         ('CL', 18), ('DL', 9), ('RL', 2), ('SL', 10), ('RP', 3), ('RT', 1), ('ST', 8)],
                'wild': 0.02, 'inherit': 0.6, 'comp': 0.15, 'lpcomp': 0.3},
     # inheritance heavy
     'bases': {'kinds': [('CT', 16), ('DT', 6), ('AB', 12), ('DB', 12), ('CP', 20), ('DP', 6), ('SM', 8),
-                        ('SC', 8), ('CL', 6), ('DL', 3), ('SL', 3), ('RT', 3), ('RP', 3), ('SA', 3)],
+                        ('SC', 8), ('CL', 6), ('DL', 3), ('SL', 3), ('RT', 3), ('RP', 4), ('SA', 3), ('ST', 6)],
               'wild': 0.03, 'inherit': 0.85, 'comp': 0.15},
     # malformed / edge stream: names that do not exist, inherited pointers altered, clashes
     'wild': {'kinds': [('CT', 10), ('DT', 8), ('RT', 5), ('SA', 2), ('AB', 8), ('DB', 6), ('CP', 16), ('DP', 8),
-                       ('RP', 6), ('SM', 8), ('SR', 3), ('SC', 8), ('CL', 6), ('DL', 4), ('RL', 2), ('SL', 4)],
+                       ('RP', 6), ('SM', 8), ('SR', 3), ('SC', 8), ('CL', 6), ('DL', 4), ('RL', 2), ('SL', 4), ('ST', 5)],
              'wild': 0.35, 'inherit': 0.7, 'comp': 0.25, 'inherited_alter': 0.4, 'cardusing': 0.25},
 }
 
@@ -589,6 +673,8 @@ def plausible(g, e):
     v = T[n]['own'][p]
     if k in ('DP', 'SM', 'SR', 'SC'):
         return True
+    if k == 'ST':
+        return not v['comp'] and (not v['link'] or e[3] in T)
     if k == 'RP':
         return e[3] not in g.vis(n)
     if k == 'CL':
@@ -611,6 +697,8 @@ RICH_TEMPLATES = [
     ('default-reset', 'alter type T{T} {{ alter property p{P} {{ reset default; }} }};'),
     ('settype', 'alter type T{T} {{ alter property p{P} {{ set type int64 using (1); }} }};'),
     ('settype-back', "alter type T{T} {{ alter property p{P} {{ set type str using ('s'); }} }};"),
+    ('settype-multi', 'alter type T{T} {{ alter property p{P} {{ set type int64 using (<int64>{{1, 2}}); }} }};'),
+    ('settype-link-self', 'alter type T{T} {{ alter link p{L} {{ set type T{T2} using (<T{T2}>{{}}); }} }};'),
     ('required-using', "alter type T{T} {{ alter property p{P} {{ set required using ('r'); }} }};"),
     ('optional', 'alter type T{T} {{ alter {K} p{A} {{ set optional; }} }};'),
     ('readonly', 'alter type T{T} {{ alter {K} p{A} {{ set readonly := true; }} }};'),
@@ -670,8 +758,9 @@ def gen_rich_history(rnd, nsteps):
             links = [p for p, v in vis.items() if v['link']] or list(range(NPROP, NPROP + NLINK))
             anyp = list(vis) or list(range(NPROP + NLINK))
             a = rnd.choice(anyp)
-            txt = tmpl.format(T=n, T2=rnd.choice(list(g.types)), P=rnd.choice(props), L=rnd.choice(links),
-                              A=a, K=kw(a), N=rnd.randrange(3))
+            tmpl = tmpl.replace('p{P}', '{P}').replace('p{L}', '{L}').replace('p{A}', '{A}')
+            txt = tmpl.format(T=n, T2=rnd.choice(list(g.types)), P=PN(rnd.choice(props)),
+                              L=PN(rnd.choice(links)), A=PN(a), K=kw(a), N=rnd.randrange(3))
             evs.append(('X', txt, tag))
         else:
             e = gen_event(rnd, g, prof)
@@ -713,7 +802,7 @@ def corpus():
 def exhaustive_small():
     """every ordering-relevant combination on ONE pointer: create it as (kind, multi, computed), in a
     type with one subtype, then every sequence of two alterations, then drop"""
-    alts = ['SM', 'SC', 'CL', 'DL', 'SL', 'DP']
+    alts = ['SM', 'SC', 'CL', 'DL', 'SL', 'DP', 'ST']
     out = []
     for link in (False, True):
         p = NPROP if link else 0
@@ -752,6 +841,11 @@ def exhaustive_small():
                                     break
                                 q = list(v['lps'])[0]
                                 e = ('SL', 1, p, q, not v['lps'][q])
+                            elif a == 'ST':
+                                if v['comp']:
+                                    ok = False
+                                    break
+                                e = ('ST', 1, p, 0)
                             else:
                                 e = ('DP', 1, p)
                             evs.append(e)
@@ -764,7 +858,7 @@ def exhaustive_small():
     for multi in (False, True):
         for a1 in alts:
             for a2 in alts:
-                for a3 in ('SM', 'SC', 'DL', 'DP'):
+                for a3 in ('SM', 'SC', 'DL', 'DP', 'ST'):
                     p = NPROP
                     evs = [('CT', 0, False, []), ('CT', 1, False, []), ('CP', 1, p, True, 0, multi, False, False),
                            ('CL', 1, p, 0, False), ('CT', 2, False, [1])]
@@ -794,6 +888,11 @@ def exhaustive_small():
                                 break
                             q = list(v['lps'])[0]
                             e = ('SL', 1, p, q, not v['lps'][q])
+                        elif a == 'ST':
+                            if v['comp']:
+                                ok = False
+                                break
+                            e = ('ST', 1, p, 0)
                         else:
                             e = ('DP', 1, p)
                         evs.append(e)
@@ -864,9 +963,19 @@ def run_impl(lines, nproc=8):
 
 
 def impl_canon(step):
-    """canonical 'ok <effects> # <catalog>' of an accepted impl step"""
-    effs = ','.join(sorted(step.get('ops', [])))
-    cat = '&'.join(f'{t}={",".join(cols)}' for t, cols in sorted(step.get('cat', {}).items()))
+    """canonical 'ok <effects> # <catalog>' of an accepted impl step: identifiers mapped to the model's
+    p<i>/q<i>; the temporary `??<id>_<rand>` column of _alter_pointer_type is removed when it was both
+    added and dropped within the step (the model does not have it; a leftover stays and is reported)"""
+    ops = list(step.get('ops', []))
+    temps = {}
+    for o in ops:
+        a = o.split(' ')
+        if len(a) == 3 and a[2].startswith('??'):
+            temps.setdefault((a[1], a[2]), []).append(a[0])
+    balanced = {k2 for k2, v in temps.items() if sorted(v) == ['AC', 'DC']}
+    ops = [o for o in ops if not (len(o.split(' ')) == 3 and (o.split(' ')[1], o.split(' ')[2]) in balanced)]
+    effs = ','.join(sorted(canon_names(ops)))
+    cat = '&'.join(f'{t}={",".join(sorted(cols))}' for t, cols in sorted(canon_names(step.get('cat', {})).items()))
     return f'ok {effs} # {cat}'.strip()
 
 
@@ -920,11 +1029,25 @@ def compare_case(evs, impl, model_line):
 
 
 # monitor failures that are the recorded defects
-def classify_failure(mon_entry, lost, orphans, clinks=frozenset()):
+NAMELESS = re.compile(r'\?[0-9a-f]{8}-[0-9a-f-]{27}')   # the id-named column of a pointer that is gone
+
+
+def classify_failure(mon_entry, lost, orphans, clinks=frozenset(), f4=None):
     """lost: link tables hit by C05-F1 (computed -> stored on a link holding stored link properties, for
     every type of the owner's cone, names before or after the step); orphans: (table, column) left by
     C05-F2 (USING with a multi expression on a stored single property)"""
     kind = mon_entry[0]
+    f4 = f4 or {}
+    # C05-F4: a pointer renamed from / to a name starting with `__` -- its column in the source table is
+    # named after the pointer for such names, after its id otherwise, and RENAME emits no storage command
+    if kind in ('missing-column', 'orphan-column') and mon_entry[1] in f4 and \
+            (mon_entry[2] in f4[mon_entry[1]] or NAMELESS.fullmatch(str(mon_entry[2]))):
+        return 'C05-F4'
+    if kind == 'pg-error' and mon_entry[1] in ('drop-missing-column', 'alter-missing-column', 'add-existing-column') \
+            and mon_entry[2] in f4 and mon_entry[3] in f4[mon_entry[2]]:
+        return 'C05-F4'      # incl. a NEW pointer that takes the `__` name whose column was left behind
+    if kind == 'sql-addresses-missing-column' and any(mon_entry[1] in v for v in f4.values()):
+        return 'C05-F4'
     if kind == 'missing-column' and mon_entry[1] in lost and re.fullmatch(r'q\d+', str(mon_entry[2])):
         return 'C05-F1'
     if kind == 'pg-error' and mon_entry[1] in ('drop-missing-column', 'alter-missing-column') \
@@ -932,7 +1055,7 @@ def classify_failure(mon_entry, lost, orphans, clinks=frozenset()):
         return 'C05-F1'
     if kind == 'orphan-column' and (mon_entry[1], mon_entry[2]) in orphans:
         return 'C05-F2'
-    if kind == 'orphan-column' and str(mon_entry[2]).startswith('?') and (mon_entry[1], '?') in orphans:
+    if kind == 'orphan-column' and NAMELESS.fullmatch(str(mon_entry[2])) and (mon_entry[1], '?') in orphans:
         return 'C05-F2'      # the property itself was dropped later: its column has no name any more
     if kind in ('sql-addresses-missing-table', 'sql-addresses-missing-column'):
         text = str(mon_entry[2])
@@ -959,15 +1082,19 @@ def track_case(evs, impl):
     g = Guide()
     out = []
     for e, st in zip(evs, impl.get('steps', [])):
-        before = (g.lost_tables(), g.orphan_cols())
+        before = (g.lost_tables(), g.orphan_cols(), g.f4_cols())
         if st.get('status') == 'ok' and e[0] != 'X':
             g.apply(e)
         after = (g.lost_tables(), g.orphan_cols())
         lost, orph = before[0] | after[0], before[1] | after[1]
         clinks = g.computed_links_with_stored_lps()
+        f4b = before[2]
+        f4 = g.f4_cols()
+        for t2, v2 in f4b.items():
+            f4.setdefault(t2, set()).update(v2)
         bad, known = [], []
-        for m in st.get('mon', []) or []:
-            fid = classify_failure(m, lost, orph, clinks)
+        for m in canon_names(st.get('mon', []) or []):
+            fid = classify_failure(m, lost, orph, clinks, f4)
             if fid:
                 known.append((fid, m))
             else:
